@@ -23,15 +23,36 @@ THEOREMS = [
     'C18.E_periodic', 'C18.E_interpolates', 'C18.E_interpolates_edge', 'C18.hgrid_of_uniform', 'C18.wrap_loop_spec',
     'C18.delta_interpolates', 'C18.delta_periodic_offlattice',
     'C18.a12_pos_inverse', 'C18.a12_pos_inverse_many', 'C18.pos_xy_inverse', 'C18.pos_xy_inverse_many',
-    'C18.planeNormal_perp', 'C18.model_roundtrip',
-    'C18.total_is_sum', 'C18.elastic_symmetric_quadratic', 'C18.elastic_polarization', 'C18.elastic_scaling',
-    'C18.density_shift_invariant', 'C18.elastic_shift_invariant',
+    'C18.planeNormal_perp', 'C18.xy_default_inverse', 'C18.E_interchangeable', 'C18.model_roundtrip',
+    'C18.total_is_sum', 'C18.total_is_sum_of_terms', 'C18.elastic_symmetric_quadratic', 'C18.elastic_polarization',
+    'C18.elastic_scaling', 'C18.density_shift_invariant', 'C18.elastic_shift_invariant',
+    'C18.energy_state_only', 'C18.longrange_after_edit', 'C18.setters_frame', 'C18.solve_kwargs',
     'C18.solve_ends_fixed', 'C18.solve_interior', 'C18.recompose_decompose',
 ]
-PARTIAL = {}
-RULE = ''
-ASSUMPTIONS = []
-TRUSTED = []
+PARTIAL = {
+    'solve never raises the total energy': 'a property of scipy.optimize.minimize on the run at hand, not of the model (the '
+        'optimiser output is an arbitrary list in the model): checked on the real code by the search (Powell, Nelder-Mead, '
+        'L-BFGS-B, BFGS on energies bounded below; E_after <= E_before, also for a second solve from the solution)',
+    'classical half-width': 'numerical clause (needs log, arctan, the continuum limit): the search scans the total energy over '
+        'normalised arctangent profiles for a sinusoidal misfit law and requires |w_min/zeta - 1| <= 1.5 (zeta/X) ln(X/zeta) + '
+        '(dx/zeta)^2 + 0.02 (window [-X, X], grid dx <= b/10, zeta = K b^2/(4 pi^2 g0)); no theorem',
+    'interpolant reproduces its nodes': 'hypothesis `hf` of E_interpolates/delta_interpolates (what scipy Rbf with smooth=0 '
+        'does up to eps*cond of its linear system): checked on the real code by the search at every sampled shift',
+    'delta on the lattice lines': 'delta(a1, a2) at integer a1 or a2 evaluates the interpolant at 0 or 1 depending on the side; '
+        'equal only as far as the Rbf is periodic there: delta_periodic_offlattice excludes the lines, the search too',
+}
+ASSUMPTIONS = [
+    'scipy Rbf (multiquadric, smooth=0) / NearestNDInterpolator are parameters of the model: the values they return at the '
+    'queried nodes are recorded from the real run and handed to the model as the table of f',
+    'numpy log, arctan, sqrt (norms), pi are evaluated by the harness in double and passed to the model as exact rationals',
+    'scipy.optimize.minimize is an arbitrary function into lists in the model (replaced by a stub in the correspondence of '
+    'solve; the real minimiser is exercised by the search)',
+    'IEEE double rounding of the implementation is bounded by the stated rtol (1e-9 x condition) away from the wrap '
+    'boundaries; on dyadic grids wrap and blend decisions are compared exactly',
+    'unit conversion factors of the data model are non-zero (C09)',
+]
+TRUSTED = ['numpy / scipy (Rbf, linalg.solve, linalg.inv) in the correspondence run', 'DataModelDict json/xml (de)serialisation',
+           'fractions.Fraction and math.log/atan/sqrt in the search oracle']
 
 
 def _np():
@@ -220,14 +241,17 @@ def gen_queries(rng, spec, m, c1=None, c2=None):
 # ----------------------------------------------------------------------------------------
 # correspondence
 # ----------------------------------------------------------------------------------------
-RULE = ('gamma surfaces: grids n1 x n2 in {2..16} (dyadic grids: coordinates/energies exact in double, wrap and '
-        'blend decisions compared exactly; generic k/n grids: compared within 1e-9 with points the model places '
-        'within 1e-9 of the wrap boundary exempt), with/without duplicated a=1 edge, with/without delta, 7 '
-        'shift-vector/box settings (rectangular, oblique, triclinic box, fcc (111)); queries: generic, sampled '
-        'nodes plus integer periods, blend-strip edges; SDVPN: isotropic and Stroh (cubic anisotropic) Volterra '
-        'solutions in several orientations, random disregistry profiles on uniform grids, random tau/alpha/beta/'
-        'cutoff and finite-difference flags; distinct = distinct canonical driver line; non-trivial = non-error '
-        'reply with at least one non-zero input')
+RULE = ('gamma surfaces: grids n1 x n2 in {2..32} incl. strongly anisotropic ones (one spacing > 4x the other); dyadic grids: '
+        'coordinates/energies exact in double, wrap and blend decisions compared exactly; generic k/n grids: compared within 1e-9 '
+        'with points the model places within 1e-9 of the wrap boundary exempt; with/without duplicated a=1 edge, with/without '
+        'delta; 11 shift-vector/cell settings (rectangular, oblique, triclinic, fcc (111), hexagonal basal/prismatic, monoclinic, '
+        'rotated triclinic: non-symmetric vects); queries through a1/a2, pos and x/y (default and given xvect, one and many '
+        'points), sampled nodes plus integer periods, blend-strip edges; SDVPN: isotropic, cubic and hexagonal Volterra solutions '
+        'in 7 orientations, random disregistry profiles on uniform grids, random tau (row 2 non-zero)/alpha (1-3 coefficients)/'
+        'beta (non-symmetric)/cut-off, all 16 combinations of fullstress x cdiffelastic x cdiffsurface x cdiffstress per system; '
+        'edit sequences of 2-5 steps on ONE object (setters, solve(**kwargs), load from DataModelDict/JSON/XML, same-length '
+        'profile on a rescaled grid) with every term evaluated after every step; distinct = distinct canonical driver line / '
+        'oracle case; non-trivial = non-error reply with at least one non-zero input')
 
 
 def _ask(ctx, line, key, info):
@@ -1785,7 +1809,7 @@ def search(ctx, broken):
     np = _np()
     rng = ctx.rng
     t0 = time.time()
-    big = 3 if broken else 1
+    big = (3 if broken else 1) * ctx.n(1, 3)
     # ---- gamma surfaces: every cell setting, both regimes
     n_g = ctx.n(len(VECTS), 6 * len(VECTS)) * big
     for it in range(n_g):
@@ -1875,7 +1899,13 @@ def replay(ctx, payload):
 
 
 MANIFEST = {
-    'text': 'placeholder',
-    'note': 'placeholder',
-    'technique': 'Lean 4 theorems over a hand-written model + differential correspondence',
+    'text': 'Lean 4 theorems about a hand-written model of GammaSurface (3x3 tiling and fit window, wrap, edge blend, the three '
+            'kinds of query, coordinate conversions incl. the default plotting axis, data-model record) and of SDVPN (density, six '
+            'energy terms, total, object state under setters / solve(**kwargs) / load, embedding of the optimiser output) and of the '
+            'arctangent profiles; tied to the real code on every run by a differential correspondence (recorded Rbf values as the '
+            'table of f; one real object and one model object under the same edit sequences) and a failing-input search with exact '
+            'Fraction oracles of each documented formula',
+    'note': 'solve-never-raises and the classical half-width are numerical clauses checked on the real code only (PARTIAL); the '
+            'interpolant, log, arctan, sqrt and the minimiser are parameters of the model',
+    'technique': 'Lean 4 theorems over a hand-written model + differential correspondence + exact-oracle search',
 }
